@@ -216,6 +216,24 @@ theorem decompose_relabel_keys (S : SchemeDef) {π : Nat → Nat} {m m' : Mol} (
   have R := toInput_relabel S (iso.aromatizeBenson hm hm') (wf_aromatizeBenson m hm) (wf_aromatizeBenson m' hm') hq hs hcap hcap'
   exact descriptors_relabel_keys R hcf res res' h h' t
 
+/-- **C03, names, presentation of the rings**: under the guard of `C03_decompose_ring_presentation_partial` the decomposition
+lists the same names however the rings are presented -/
+theorem decompose_ring_presentation_keys (S : SchemeDef) (m : Mol) (rs' : List (List Nat))
+    (h : RingsSame m.rings rs') (hd : EligibleRingsBondDisjoint m)
+    (hm : m.wf = true) (hq : S.wf = true) (hs : S.noStar = true)
+    (hcap : maxRaw S (aromatizeBenson m) < maxMatches)
+    (hcap' : maxRaw S { aromatizeBenson m with rings := rs' } < maxMatches) (hcf : ChainFree S.remaps)
+    (res res' : Counts) (h1 : decompose S m = .ok res) (h2 : decompose S { m with rings := rs' } = .ok res') (t : String) :
+    t ∈ Counts.keys res' ↔ t ∈ Counts.keys res := by
+  have ha := wf_aromatizeBenson m hm
+  have hr : RingsSame (aromatizeBenson m).rings rs' := by
+    have : (aromatizeBenson m).rings = m.rings := aromatizeRings_rings m.rings m
+    rw [this]; exact h
+  have R := toInput_rings_relabel S (aromatizeBenson m) ha rs' hr hq hs hcap hcap'
+  unfold decompose at h2
+  rw [aromatizeBenson_rings m rs' h hd] at h2
+  exact descriptors_relabel_keys R hcf res res' h1 h2 t
+
 /-- **C04, names**: the decomposition of `A ⊔ B` lists exactly the names listed for `A` or for `B` -/
 theorem decompose_union_keys (S : SchemeDef) (A B : Mol) (hA : A.wf = true) (hB : B.wf = true)
     (hq : S.wf = true) (hs : S.noStar = true) (hmp : S.noMolPrefix = true) (hcn : S.connected = true)
